@@ -17,7 +17,7 @@ vars == <<sh, sg, chk, lastkf, hung, hist>>
 
 \* statistics / id counters and the cumulative accounting only ever move by deltas that do
 \* not depend on their value, and nothing visible depends on them: hidden from the fingerprint
-View == <<[sh EXCEPT !.st = EmptyStats, !.gen = 0], sg.prio, sg.prioRT, sg.gone, chk, lastkf, hung, Len(hist)>>
+View == <<[sh EXCEPT !.st = EmptyStats, !.gen = 0], sg.gone, chk, lastkf, hung, Len(hist)>>
 
 Mk(s, i) == [id |-> i, kind |-> s.kind, vis |-> s.vis, hid |-> s.hid, thr |-> s.thr, amt |-> s.amt,
              auto |-> s.auto, ts |-> s.ts, side |-> s.side, px |-> Price, par |-> "GTC"]
@@ -34,7 +34,7 @@ CallsFrom(s) ==
              \cup {[op |-> "replace", id |-> i, p |-> p, q |-> q, side |-> "Sell"] : i \in Ids, p \in {Price, Price + 1}, q \in AmendQs}
         ELSE {})
 
-Init == /\ sh = EmptyShared /\ sg = SeqGhostInit(EmptyMap, <<>>)
+Init == /\ sh = EmptyShared /\ sg = SeqGhostInit(EmptyMap)
         /\ chk = {} /\ lastkf = {} /\ hung = FALSE /\ hist = <<>>
 
 Next ==
@@ -42,7 +42,7 @@ Next ==
   /\ \E c \in CallsFrom(sh) :
        LET run == RunCall(sh, c, Fuel)
            r   == IF run.hang THEN [t |-> "hang"] ELSE run.me.ret
-           v   == CallVerdict(sh, c, r, run.sh, sg, r)
+           v   == CallVerdict(sh, c, r, run.sh, sg, [ret |-> r, sh |-> run.sh])
        IN /\ sh' = run.sh /\ sg' = v.sg /\ chk' = v.bad /\ lastkf' = v.kf /\ hung' = run.hang
           /\ hist' = Append(hist, c)
 
